@@ -35,7 +35,7 @@ PROPS = {
     "C05": dict(profiles=[("channels", False, 4), ("channels", True, 8), ("mixed", False, 4)], alphabet=CHAN_KINDS, mc=["MC_Channels"]),
     "C09": dict(profiles=[("mixed", True, 14), ("channels", True, 14), ("calls", True, 14), ("intro", False, 10)], alphabet=ALL_KINDS, mc=["MC_Lifecycle"]),
     "C10": dict(profiles=[("listeners", False, 4), ("listeners", True, 8), ("mixed", False, 4)], alphabet=LST_KINDS, mc=["MC_Listeners"]),
-    "C11": dict(profiles=[("abuse", False, 5), ("mixed", False, 6), ("intro", False, 5)], alphabet=ALL_KINDS, mc=["MC_Abuse"]),
+    "C11": dict(profiles=[("abuse", False, 5), ("mixed", False, 6), ("calls", False, 5), ("intro", False, 5)], alphabet=ALL_KINDS, mc=["MC_Abuse"]),
     "C12": dict(profiles=[("mixed", True, 3), ("calls", True, 3), ("events", True, 3)], alphabet=ALL_KINDS, mc=["MC_Versions_14_20", "MC_Versions_20_14", "MC_Versions_15_19", "MC_Versions_17_18"]),
 }
 
